@@ -38,10 +38,15 @@ OptionRows == { [m |-> m, ipv |-> v, ph |-> ph, ck |-> ck, st |-> "opt-grammar",
                   ph \in Phases, ck \in Cks }
          \cup { [m |-> m, ipv |-> 6, ph |-> ph, ck |-> ck, st |-> "opt-grammar", mu |-> t] :
                   m \in {"eth", "ip"}, ph \in Phases, ck \in Cks, t \in {"ndisc", "hbh"} }
+\* DNS responses to a query that is pending: hostile names (pointer loops, pointers out of range, cut messages) in the
+\* question, in an answer's owner name, in CNAME data
+\* (on Ethernet only the warm phase: a fresh interface would first have to resolve its server's link address)
+DnsRows == { r \in [m : {"eth", "ip"}, ipv : {4, 6}, ph : Phases, ck : Cks, st : {"dns-grammar"}, mu : {"question", "owner", "cname"}] :
+               r.m = "eth" => r.ph = "warm" }
 \* the obligation as a machine: `alive` is never lost, whatever the row
 VARIABLES row, done, alive
 Init == row = [m |-> "none"] /\ done = FALSE /\ alive = TRUE
-Pick == ~done /\ done' = TRUE /\ alive' = alive /\ \E r \in AllRows \cup GrammarRows \cup OptionRows : row' = r
+Pick == ~done /\ done' = TRUE /\ alive' = alive /\ \E r \in AllRows \cup GrammarRows \cup OptionRows \cup DnsRows : row' = r
 Spec == Init /\ [][Pick]_<<row, done, alive>>
 Alive == alive
 Export == done => PrintT(<<"REPLAY", ToJson(row)>>)
